@@ -239,7 +239,7 @@ def eval_sexpr(s):
 def run_z3(script, cap):
     t0 = time.time()
     try:
-        p = subprocess.run([Z3, "-smt2", "-in", f"-T:{cap}"], input=script, capture_output=True, text=True, timeout=cap + 30)
+        p = subprocess.run([Z3, "-smt2", "-in", f"-T:{cap}"], input=script, capture_output=True, text=True, timeout=cap + 15)
         out = p.stdout
     except subprocess.TimeoutExpired:
         out = "timeout"
@@ -256,37 +256,21 @@ def replay(name, vals, scale=0.9):
         return None, f"{e}: {p.stdout[-300:]}"
 
 
-def path_script(enc, ob, p, pending, hdr):
+def query_script(enc, ob, p, hdr, goal_id=None):
+    """One solver query: path condition + assumptions (+ negated goal)."""
     pc = [enc.name(c) if t else f"(not {enc.name(c)})" for c, t in p["pc"]] + [enc.name(x) for x in p["assume"]]
     sc = list(hdr)
     sc.append("(assert (and true " + " ".join(pc) + "))")
-    sc.append("(check-sat)\n(echo \"--end feas\")")
-    varlist = " ".join(f"v{j}" for j in range(len(ob["vars"])))
-    for gi, gname in pending:
-        sc.append(f"(push)\n(assert (not {enc.name(p['goals'][gi][1])}))\n(check-sat)")
-        if ob["vars"]:
-            sc.append(f"(get-value ({varlist}))")
-        sc.append(f"(pop)\n(echo \"--end {gi}\")")
+    if goal_id is not None:
+        sc.append(f"(assert (not {enc.name(goal_id)}))")
+    sc.append("(check-sat)")
+    if goal_id is not None and ob["vars"]:
+        sc.append("(get-value (" + " ".join(f"v{j}" for j in range(len(ob["vars"]))) + "))")
     return "\n".join(sc) + "\n"
 
 
-def parse_blocks(out):
-    """Splits solver output at the `--end <tag>` echoes: {tag: [lines]}."""
-    blocks, cur = {}, []
-    for l in out.splitlines():
-        if "model is not available" in l:
-            continue
-        if l.startswith("--end"):
-            blocks[l.split()[1]] = cur
-            cur = []
-        else:
-            cur.append(l)
-    blocks["_tail"] = cur
-    return blocks
-
-
 def decide_obligation(ob, tier, pool=None):
-    """One obligation (all its goals, all its paths). Returns a C.Obligation."""
+    """One obligation (all its goals, all its paths); every (path, goal) pair is one solver process with a hard cap."""
     o = C.Obligation(ob["name"], "symx", ob["desc"], ob["functions"],
                      "; ".join(f"{v['name']} in [{v['lo']:g}, {v['hi']:g}]" for v in ob["vars"]) or "constants only",
                      ob["tier"])
@@ -317,38 +301,41 @@ def decide_obligation(ob, tier, pool=None):
     axioms, ax_names = AX.ground_axioms(enc, ob)
     hdr = enc.header() + AX.declarations(enc.used_uf) + enc.lines + axioms
     os.makedirs(os.path.join(C.BUILD, "smt"), exist_ok=True)
-    scripts = [path_script(enc, ob, p, pending, hdr) for p in ob["paths"]]
-    with open(os.path.join(C.BUILD, "smt", ob["name"] + ".smt2"), "w") as f:
-        f.write(scripts[0])
-    t0 = time.time()
-    pcap = cap * (len(pending) + 1)
-    if pool is not None and len(scripts) > 1:
-        outs = list(pool.map(lambda sc: run_z3(sc, pcap), scripts))
-    else:
-        outs = [run_z3(sc, pcap) for sc in scripts]
-    o.solver_s = sum(t for _, t in outs)
-    o.queries = 0
-    feasible = 0
-    goal_res = {g: [] for _, g in pending}   # per goal: list of (verdict, model) over feasible paths
+    mapper = pool.map if pool is not None else map
+    # phase 1: which paths are feasible at all (also the vacuity check)
+    feas_scripts = [query_script(enc, ob, p, hdr) for p in ob["paths"]]
+    feas_out = list(mapper(lambda sc: run_z3(sc, min(cap, 60)), feas_scripts))
+    o.queries = len(feas_out)
+    o.solver_s = sum(t for _, t in feas_out)
     errors = []
-    for (out, _), p in zip(outs, ob["paths"]):
-        if "(error" in out.replace("model is not available", ""):
-            bad = [l for l in out.splitlines() if "(error" in l and "model is not available" not in l]
-            if bad:
-                errors.append(bad[0][:200])
-                continue
-        blk = parse_blocks(out)
-        feas = (blk.get("feas") or ["timeout"])[0].strip()
-        o.queries += 1
-        if feas == "unsat":
-            continue
-        if feas == "sat":
+    live = []
+    feasible = 0
+    for (out, _), p in zip(feas_out, ob["paths"]):
+        first = (out.strip().splitlines() or ["timeout"])[0].strip()
+        if "(error" in out:
+            errors.append(out[out.index("(error"):][:200])
+        elif first == "sat":
             feasible += 1
-        for gi, gname in pending:
-            b = blk.get(str(gi))
-            o.queries += 1
-            verdict = b[0].strip() if b else "timeout"
-            goal_res[gname].append((verdict, "\n".join(b[1:]) if b else "", feas))
+            live.append(p)
+        elif first != "unsat":
+            live.append(p)
+    # phase 2: every feasible path x pending goal
+    jobs = [(p, gi, gname) for p in live for gi, gname in pending if nodes[p["goals"][gi][1]] != ["bconst", True]]
+    scripts = [query_script(enc, ob, p, hdr, p["goals"][gi][1]) for p, gi, gname in jobs]
+    if scripts:
+        with open(os.path.join(C.BUILD, "smt", ob["name"] + ".smt2"), "w") as f:
+            f.write(scripts[0])
+    outs = list(mapper(lambda sc: run_z3(sc, cap), scripts))
+    o.queries += len(outs)
+    o.solver_s += sum(t for _, t in outs)
+    goal_res = {g: [] for _, g in pending}
+    for (out, _), (p, gi, gname) in zip(outs, jobs):
+        lines = [l for l in out.strip().splitlines() if "model is not available" not in l]
+        if any("(error" in l for l in lines):
+            errors.append([l for l in lines if "(error" in l][0][:200])
+            continue
+        verdict = lines[0].strip() if lines else "timeout"
+        goal_res[gname].append((verdict, "\n".join(lines[1:]), None))
     if errors:
         o.result, o.detail = C.UNDECIDED, "solver error: " + errors[0]
         return o
@@ -382,7 +369,7 @@ def decide_obligation(ob, tier, pool=None):
                                   f"spurious w.r.t. the real-arithmetic / uninterpreted-function abstraction", v)
             continue
         if unk:
-            results[gname] = ("undecided", f"solver answered '{unk[0][0]}' on {len(unk)} path(s) within {pcap}s", None)
+            results[gname] = ("undecided", f"solver answered '{unk[0][0]}' on {len(unk)} path(s) within {cap}s", None)
         else:
             results[gname] = ("pass", "", None)
     bad = {k: v for k, v in results.items() if v[0] != "pass"}
